@@ -111,6 +111,8 @@ impl Stream {
 pub enum CutKind {
     Short,
     WouldBlock,
+    /// the next read fails with this error kind (0 ConnectionReset, 1 Interrupted, 2 TimedOut)
+    Error(u8),
 }
 
 struct ScriptRead<'a> {
@@ -121,17 +123,33 @@ struct ScriptRead<'a> {
     eof: bool,
     supplied_this_call: usize,
     reads: usize,
+    fail_next: Option<u8>,
+    eof_seen_this_call: bool,
+    error_seen_this_call: bool,
 }
 
 impl<'a> io::Read for ScriptRead<'a> {
     fn read(&mut self, buf: &mut [u8]) -> io::Result<usize> {
         self.reads += 1;
+        if let Some(k) = self.fail_next.take() {
+            self.error_seen_this_call = true;
+            let kind = match k {
+                0 => io::ErrorKind::ConnectionReset,
+                1 => io::ErrorKind::Interrupted,
+                _ => io::ErrorKind::TimedOut,
+            };
+            return Err(io::Error::new(kind, "injected"));
+        }
         if self.block_next {
             self.block_next = false;
             return Err(io::ErrorKind::WouldBlock.into());
         }
         if self.pos == self.data.len() {
-            return if self.eof { Ok(0) } else { Err(io::ErrorKind::WouldBlock.into()) };
+            if self.eof {
+                self.eof_seen_this_call = true;
+                return Ok(0);
+            }
+            return Err(io::ErrorKind::WouldBlock.into());
         }
         let mut limit = self.data.len();
         let mut kind = None;
@@ -145,8 +163,12 @@ impl<'a> io::Read for ScriptRead<'a> {
         buf[..n].copy_from_slice(&self.data[self.pos..self.pos + n]);
         self.pos += n;
         self.supplied_this_call += n;
-        if self.pos == limit && kind == Some(CutKind::WouldBlock) {
-            self.block_next = true;
+        if self.pos == limit {
+            match kind {
+                Some(CutKind::WouldBlock) => self.block_next = true,
+                Some(CutKind::Error(k)) => self.fail_next = Some(k),
+                _ => {}
+            }
         }
         Ok(n)
     }
@@ -173,7 +195,8 @@ pub fn run_one(stream: &Stream, data: &[u8], cuts: &[(usize, CutKind)], handler_
     }
     let first_bad = ends.iter().position(|(_, f)| f.is_none());
     let mut fb = FrameBuffer::new();
-    let mut reader = ScriptRead { data, pos: 0, cuts, block_next: false, eof: stream.eof, supplied_this_call: 0, reads: 0 };
+    let mut reader = ScriptRead { data, pos: 0, cuts, block_next: false, eof: stream.eof, supplied_this_call: 0, reads: 0, fail_next: None, eof_seen_this_call: false, error_seen_this_call: false };
+    let error_cut = cuts.iter().filter(|(_, k)| matches!(k, CutKind::Error(_))).map(|(p, _)| *p).min();
     let mut handed: Vec<AMQPFrame> = Vec::new();
     let mut final_err: Option<Error> = None;
     let mut calls = 0;
@@ -183,6 +206,8 @@ pub fn run_one(stream: &Stream, data: &[u8], cuts: &[(usize, CutKind)], handler_
             return Some(("framebuf:no-progress".into(), "read_from called 100000 times".into()));
         }
         reader.supplied_this_call = 0;
+        reader.eof_seen_this_call = false;
+        reader.error_seen_this_call = false;
         let before = handed.len();
         let r = std::panic::catch_unwind(std::panic::AssertUnwindSafe(|| {
             fb.read_from(&mut reader, |f| {
@@ -200,6 +225,14 @@ pub fn run_one(stream: &Stream, data: &[u8], cuts: &[(usize, CutKind)], handler_
         let _ = before;
         match r {
             Ok(n) => {
+                // the end of the stream / a read error is seen exactly once (edge-triggered
+                // readiness): the call that sees it must report it
+                if reader.eof_seen_this_call {
+                    return Some(("framebuf:eof-swallowed".into(), format!("a read returned 0 (end of stream) at offset {} but read_from returned Ok({})", reader.pos, n)));
+                }
+                if reader.error_seen_this_call {
+                    return Some(("framebuf:read-error-swallowed".into(), format!("a read failed at offset {} but read_from returned Ok({})", reader.pos, n)));
+                }
                 if n != reader.supplied_this_call {
                     return Some(("framebuf:byte-count".into(), format!("read_from returned {} but {} bytes were supplied in that call", n, reader.supplied_this_call)));
                 }
@@ -236,7 +269,21 @@ pub fn run_one(stream: &Stream, data: &[u8], cuts: &[(usize, CutKind)], handler_
     }
     // handed frames must be exactly the expected prefix, in order
     let limit_items = first_bad.unwrap_or(ends.len());
-    let mut expected: Vec<&AMQPFrame> = ends[..limit_items].iter().filter(|(e, _)| *e <= data.len()).map(|(_, f)| f.unwrap()).collect();
+    // an injected read error at offset e: frames complete before e are handed on, then the error
+    // (a malformed frame is recognised once the bytes its own size field announces are there)
+    let bad_eff_end = first_bad.map(|b| {
+        let start = if b == 0 { 0 } else { ends[b - 1].0 };
+        let it = &stream.items[b].bytes;
+        let by_size = if it.len() >= 7 { u32::from_be_bytes([it[3], it[4], it[5], it[6]]) as usize + 8 } else { it.len() };
+        start + by_size.min(it.len())
+    });
+    let err_first = match (error_cut, first_bad) {
+        (Some(e), Some(_)) => e < bad_eff_end.unwrap(),
+        (Some(_), None) => true,
+        _ => false,
+    };
+    let reach = if err_first { error_cut.unwrap() } else { data.len() };
+    let mut expected: Vec<&AMQPFrame> = ends[..limit_items].iter().filter(|(e, _)| *e <= reach).map(|(_, f)| f.unwrap()).collect();
     if let Some(k) = handler_fail_at {
         expected.truncate(k);
     }
@@ -249,11 +296,13 @@ pub fn run_one(stream: &Stream, data: &[u8], cuts: &[(usize, CutKind)], handler_
         }
     }
     // outcome
-    let complete_all = ends[..limit_items].iter().filter(|(e, _)| *e <= data.len()).count();
+    let complete_all = ends[..limit_items].iter().filter(|(e, _)| *e <= reach).count();
     let handler_fails = handler_fail_at.map(|k| k < complete_all).unwrap_or(false);
     let bad_complete = first_bad.map(|b| ends[b].0 <= data.len()).unwrap_or(false);
     let want = if handler_fails {
         "HandlerError"
+    } else if err_first {
+        "IoErrorReadingSocket"
     } else if bad_complete {
         "MalformedFrame"
     } else if stream.eof {
@@ -325,7 +374,7 @@ fn cut_positions(stream: &Stream, data: &[u8], every_offset_upto: usize) -> Vec<
 }
 
 fn cuts_json(c: &[(usize, CutKind)]) -> Value {
-    json!(c.iter().map(|(p, k)| json!([p, if *k == CutKind::Short {"short"} else {"wouldblock"}])).collect::<Vec<_>>())
+    json!(c.iter().map(|(p, k)| json!([p, match k { CutKind::Short => "short".to_string(), CutKind::WouldBlock => "wouldblock".to_string(), CutKind::Error(e) => format!("error{}", e) }])).collect::<Vec<_>>())
 }
 
 fn report(p: &mut Part, stream_idx: usize, s: &Stream, cuts: &[(usize, CutKind)], fail_at: Option<usize>, r: Option<(String, String)>) {
@@ -367,6 +416,16 @@ fn explore_stream(idx: usize, s: &Stream, data: &[u8], pos: &[usize], first: Opt
         Some(i) => i,
     };
     let a = pos[i];
+    for ek in 0..3u8 {
+        let c = [(a, CutKind::Error(ek))];
+        report(p, idx, s, &c, None, run_one(s, data, &c, None));
+        for &b in pos.iter().skip(i + 1).step_by(7) {
+            for kb in kinds {
+                let c = [(a, kb), (b, CutKind::Error(ek))];
+                report(p, idx, s, &c, None, run_one(s, data, &c, None));
+            }
+        }
+    }
     for ka in kinds {
         if max_cuts >= 1 {
             let c = [(a, ka)];
@@ -453,7 +512,7 @@ pub fn replay(v: &Value) -> bool {
     let idx = v["stream"].as_u64().unwrap() as usize;
     let base = &all[idx];
     let s = Stream { name: base.name.clone(), items: base.items.clone(), eof: if v["truncate_at"].is_u64() { true } else { base.eof }, truncate_at: v["truncate_at"].as_u64().map(|x| x as usize) };
-    let cuts: Vec<(usize, CutKind)> = v["cuts"].as_array().unwrap().iter().map(|c| (c[0].as_u64().unwrap() as usize, if c[1].as_str() == Some("short") { CutKind::Short } else { CutKind::WouldBlock })).collect();
+    let cuts: Vec<(usize, CutKind)> = v["cuts"].as_array().unwrap().iter().map(|c| (c[0].as_u64().unwrap() as usize, match c[1].as_str().unwrap_or("") { "short" => CutKind::Short, "wouldblock" => CutKind::WouldBlock, e => CutKind::Error(e.trim_start_matches("error").parse().unwrap_or(0)) })).collect();
     let fail_at = v["handler_fail_at"].as_u64().map(|x| x as usize);
     let data = s.bytes();
     println!("stream {} ({} bytes, eof {}), items {:?}", s.name, data.len(), s.eof, s.items.iter().map(|i| format!("{}:{}B", i.name, i.bytes.len())).collect::<Vec<_>>());
